@@ -315,7 +315,8 @@ def _spawn_shard(prop, tier, i, out, mode):
         env["VERIF_PROCESS_MODE"] = mode
     # (stderr goes to a file beside the result: a child that writes more than a pipe holds - thousands of warnings, say - must not block)
     with open(out + ".stderr", "wb") as errf:
-        return subprocess.Popen([sys.executable] + (["-O"] if mode == "O" else []) + ["-B", "-m", "vlib.runner", prop, "--tier", tier,
+        # (mode O: optimised AND in development mode - python -O -X dev - the two interpreter switches deployments and developers use)
+        return subprocess.Popen([sys.executable] + (["-O", "-X", "dev"] if mode == "O" else []) + ["-B", "-m", "vlib.runner", prop, "--tier", tier,
                                                                                     "--shard", str(i), "--out", out], cwd=VERIF, env=env,
                                 stdout=subprocess.DEVNULL, stderr=errf)
 
@@ -438,7 +439,7 @@ def main(argv=None):
         if isinstance(rec.get("witness"), dict) and "hammer" in rec["witness"]:
             want = "T"
         if want == "O" and not sys.flags.optimize:
-            os.execv(sys.executable, [sys.executable, "-O", "-B", "-m", "vlib.runner"] + list(sys.argv[1:] if argv is None else argv))
+            os.execv(sys.executable, [sys.executable, "-O", "-X", "dev", "-B", "-m", "vlib.runner"] + list(sys.argv[1:] if argv is None else argv))
         if want in ("K", "T") and os.environ.get("VERIF_PROCESS_MODE") != want:
             os.execve(sys.executable, [sys.executable, "-B", "-m", "vlib.runner"] + list(sys.argv[1:] if argv is None else argv),
                       dict(os.environ, VERIF_PROCESS_MODE=want))
